@@ -98,7 +98,7 @@ let sched_cmd cmd tk = match cmd with
       | "STEPBAD" -> run (DEv (EvStepBad (next_nat tk)))
       | "DATA" -> let i = next_nat tk in let ot = next_z tk in let ps = next_list next_nat tk in
           run (DData (i, ot, ps, pairs_attr tk))
-      | "SETDATA" -> let i = next_nat tk in let j = next_nat tk in let a = next_nat tk in let v = next_z tk in run (DSetData (i, j, a, v))
+      | "SETDATA" -> let i = next_nat tk in let w = next_nat tk in let j = next_nat tk in let a = next_nat tk in let v = next_z tk in run (DSetData (i, w, j, a, v))
       | "LOOPFAIL" -> run (DEv (EvLoopFail (next_nat tk)))
       | "QUIESCE" -> (match enabled_sims stat cur with [] -> "ok" | l -> "enabled " ^ String.concat "," (List.map (fun i -> string_of_int (int_of_nat i)) l))
       | "END" -> Printf.sprintf "alldone=%b" (all_done stat cur)
